@@ -561,6 +561,9 @@ fn brute_cut(n: usize, dense: &[i64], ids: &[usize]) -> i64 {
 }
 
 pub fn run_op(ctx: &mut Ctx, op: &str) {
+    if ctx.hang_limit_reached() {
+        return;
+    }
     let Some(c) = parse_op(op) else {
         ctx.record(op.to_string(), "bad-op".into(), false);
         return;
